@@ -6,6 +6,7 @@ pub mod engine;
 pub mod alloc_count;
 pub mod capi_util;
 pub mod cy;
+pub mod cyw;
 pub mod hist;
 pub mod iosim;
 pub mod model;
